@@ -883,7 +883,8 @@ def run_check(ctx, prop, props_module, level):
                    "exactly at the ring's physical end, growth of a wrapped buffer, every name pool x -K x -N, EOF on one "
                    "stream long before the other, every fragmentation of two small streams on two hosts x every "
                    "interleaving, read(2) faults at every handler call (short reads, spurious EAGAIN, EINTR), pdcp/rpdcp "
-                   "remote stderr through the real _parallel_copy; pinned real runs (domain loop of dsh(), one stream ends "
+                   "remote stderr through the real _parallel_copy; the real xpoll() over a scripted poll(2): every combination of "
+                   "the kernel's revents bits x stale revents x events x nfds/timeout/NULL/errno classes; pinned real runs (domain loop of dsh(), one stream ends "
                    "first, exec fails after an unterminated fragment) and pinned scheduler cases; THEN RANDOM: "
                    "case = target set x options (-N, -K) x per (host, stream) payload x chunking x interleaved "
                    "schedule of handler calls; payload lines of length 0/1/../62-66/934-1002/1998-2001/3999/4000/"
@@ -895,7 +896,8 @@ def run_check(ctx, prop, props_module, level):
                    "distinct (payload, chunk sizes, options, targets, stream); controlled-scheduler part: 2-6 targets "
                    "with scripted stdout+stderr each under uniform/PCT/starve/eager/preempt-at-each-fputs schedules "
                    "(thorough: all io interleavings of 4 tiny configurations), distinct = distinct (stream, schedule); every read of "
-                   "every worker under the scheduler is replayed through the model's handler (loop replay)"}
+                   "every worker under the scheduler is replayed through the model's handler (loop replay), and after every "
+                   "poll return the handlers that read next, in order, are the model's (XPoll.loopIter)"}
     dist = {"tags": {}, "flavours": {}}
     ctx.log("constants regenerated, proofs built and audited")
     exe_dbg = build_harness(ctx, "relay_dbg", assertions=True)
@@ -1046,7 +1048,7 @@ def run_check(ctx, prop, props_module, level):
                      "(C05.unstarted_host_writes_nothing); checked by real runs in which execvp fails (ENOENT/EACCES) "
                      "before, between and after hosts with unterminated output, stdout to a pipe and to a file"],
         trusted_base=["Lean 4.33 kernel", "axioms: propext, Classical.choice, Quot.sound at most (audited per theorem)",
-                      "hand-written model Relay/Model.lean tied to dsh.c/err.c by differential execution",
+                      "hand-written model Relay/Model.lean, Relay/XPoll.lean tied to dsh.c/err.c/xpoll.c by differential execution",
                       "Gen/Relay.lean, Gen/Cbuf.lean, Gen/Dsh.lean regenerated from /repo",
                       "harness/relay_harness.c (incl. its replica of dsh()'s 8-line domain loop), harness/relay_stubs.h, "
                       "harness/relay_writer.c, vlib/relay.py, vlib/relay_real.py, vlib/relay_sched.py + harness/sched/* "
